@@ -74,3 +74,32 @@ func RunProc(timeout time.Duration, dir string, env []string, stdin []byte, bin 
 	}
 	return p
 }
+
+// RunProcTo is RunProc with stdout connected to the given file.
+func RunProcTo(timeout time.Duration, dir string, env []string, stdin []byte, stdout *os.File, bin string, args ...string) Proc {
+	ctx, cancel := context.WithTimeout(context.Background(), timeout)
+	defer cancel()
+	cmd := exec.CommandContext(ctx, bin, args...)
+	cmd.Dir = dir
+	cmd.Env = append(os.Environ(), env...)
+	var se bytes.Buffer
+	cmd.Stdout, cmd.Stderr = stdout, &se
+	if stdin != nil {
+		cmd.Stdin = bytes.NewReader(stdin)
+	}
+	err := cmd.Run()
+	p := Proc{Stderr: se.Bytes()}
+	if ctx.Err() != nil {
+		p.TimedOut = true
+		p.Exit = -1
+		return p
+	}
+	if err != nil {
+		if ee, ok := err.(*exec.ExitError); ok {
+			p.Exit = ee.ExitCode()
+		} else {
+			p.Exit = -2
+		}
+	}
+	return p
+}
